@@ -603,10 +603,39 @@ func runC09(c *core.Ctx) {
 			}
 			// result mapping
 			fullOK, passOK := false, false
+			// (value returned, comparisons known, the value standing for the offer's result) - in Schedule itself, or in
+			// a private translation helper the offer's result is handed to (`return fromQueueErr(q.Offer(fn))`)
+			type retCase struct {
+				v    ssa.Value
+				cmps []core.Cmp
+				subj ssa.Value
+			}
+			var cases []retCase
 			for _, rc := range core.ReturnCases(sched) {
 				v := core.Resolve(rc.Vals[0])
+				if hc, isHC := v.(*ssa.Call); isHC && hc != offer {
+					if h := core.Callee(&hc.Call); h != nil && p.InRepo(h) && len(h.Blocks) > 0 && h.Object() != nil && !h.Object().Exported() {
+						pi := -1
+						for i, a := range hc.Call.Args {
+							if core.Resolve(a) == ssa.Value(offer) && i < len(h.Params) {
+								pi = i
+							}
+						}
+						if pi >= 0 {
+							for _, rc2 := range core.ReturnCases(h) {
+								cases = append(cases, retCase{core.Resolve(rc2.Vals[0]), rc2.Cmps(), h.Params[pi]})
+							}
+							continue
+						}
+					}
+				}
+				cases = append(cases, retCase{v, rc.Cmps(), offer})
+			}
+			for _, rc := range cases {
+				v := rc.v
+				offer := rc.subj
 				isFullEdge, isNotFullEdge := false, false
-				for _, m := range rc.Cmps() {
+				for _, m := range rc.cmps {
 					if core.Resolve(m.X) == ssa.Value(offer) && core.GlobalName(m.Y) == "ErrQueueIsFull" {
 						if m.Op == token.EQL {
 							isFullEdge = true
